@@ -38,6 +38,12 @@ def gen_tree(rng, depth, names, url_names=False, p_readme=0.4, servings_pool=(No
     if depth > 0:
         for i in range(rng.randint(0, 3)):
             d["subdirs"].append(gen_tree(rng, depth - 1, names, url_names, p_readme, servings_pool, False, counter))
+    # the same recipe file name in two directories (with different titles / serving counts)
+    if d["recipes"] and d["subdirs"] and rng.random() < 0.3:
+        r = d["recipes"][0]
+        sub = rng.choice(d["subdirs"])
+        if all(x["file"] != r["file"] for x in sub["recipes"]):
+            sub["recipes"].append(dict(file=r["file"], title="Namesake " + str(counter[0]), servings=rng.choice(servings_pool), links=[]))
     return d
 
 
@@ -51,7 +57,7 @@ def recipe_text(r):
 def write_tree(d, path):
     path.mkdir(parents=True, exist_ok=True)
     if d["readme"] is not None:
-        links = "\n\n".join("[%s](%s)" % (lab, url) for lab, url, _ in d["readme"]["links"])
+        links = "\n\n".join(("![%s](%s)" if lab.startswith("I") else "[%s](%s)") % (lab, url) for lab, url, _ in d["readme"]["links"])
         (path / d["readme"]["file"]).write_text("# %s\n\nhello\n\n%s\n" % (d["readme"]["title"], links))
     for r in d["recipes"]:
         (path / r["file"]).write_text(recipe_text(r))
